@@ -464,8 +464,14 @@ def dispatch_certificate(parsed):
         return int(any(v == t for v in pst["c"].values())) + int(any(x[2] == t for x in pst["r"])) + int(pst["a"] == t)
     want_inl = [i for i, st in enumerate(dfa)
                 if len(st["preds"]) == 1 and st["preds"][0] < len(dfa) and n_arms_to(dfa[st["preds"][0]], i) == 1]
-    if sorted(inl) != want_inl:
-        probs.append("inlined states %r, expected (one predecessor, one arm) %r" % (inl, want_inl))
+    # Which states are inlined is a code-generation policy, not part of any property: a different
+    # policy is not reported. What must hold for ANY policy: an inlined state has a predecessor to be
+    # inlined into and is not an initial state (those are entered through __state), and every
+    # state that is not inlined is reachable through its own arm (below).
+    for s in inl:
+        if s >= len(dfa) or dfa[s]["init"] or not dfa[s]["preds"]:
+            probs.append("state %d is marked inlined but is initial or has no predecessor" % s)
+    parsed["inlining_policy_differs"] = sorted(inl) != want_inl
     for s, st in enumerate(dfa):
         if s in inl:
             continue
